@@ -221,6 +221,17 @@ func c19RecovererValue(c *Check, P string, m *MW, e ssa.Value, r *ssa.Return, k 
 	for i, st := range StoresToCellIn(dcl, errCell) {
 		c.Report(len(g) > 0 && GuardedBy(dcl, st, g), P+".O1", "REPLACE-ONLY-IF-PANICKED", dcl, st.Pos(), fmt.Sprintf("Recoverer store#%d", i), "the error result is replaced only on the panicked edge (recover() != nil, or the 'handler did not return' flag)")
 	}
+	// recover() alone does not see every panic: panic(nil) makes it return nil when the program runs with the
+	// pre-1.21 semantics (older main module, or GODEBUG=panicnil=1); only a 'handler did not return' flag covers it
+	okNil := false
+	for _, st := range StoresToCellIn(dcl, errCell) {
+		for _, e := range flagTrue {
+			if ReachEdge(e, NewCut().AddEdges(recNonNil...))[st] {
+				okNil = true
+			}
+		}
+	}
+	c.Report(okNil, P+".O1", "RECOVER-COVERS-NIL-PANIC", dcl, dcl.Pos(), "Recoverer: did-not-return flag", "the error is also replaced when the handler did not return although recover() gave nil (a flag set before the handler call and cleared only after it returned)")
 	// the defer is registered before the call and the closure recovers on every path
 	AllInstrs(I, func(in ssa.Instruction) {
 		if d, ok := in.(*ssa.Defer); ok && FuncOfValue(d.Call.Value) == dcl {
